@@ -66,6 +66,78 @@ def run(ctx):
     R_ver = ctx.rule("C18.same-optional-chunk-rule", "reader and writer decide the optional MWMO chunk through the same version rule", floor=2)
     R_coord = ctx.rule("C18.coordinate-axes-pair", "tile_to_world and world_to_tile use the same constants and the round trip maps input axis i to output axis i", floor=2)
 
+    # MPHD file-id slots: the reader's slot -> field map equals the writer's field order
+    R_slot = ctx.rule("C18.mphd-file-id-slots-agree", "MphdChunk::read takes each *_file_data_id from the 32-bit slot in which MphdChunk::write puts it", floor=7)
+    rd = next((f for f in wdt.fn_list if f.hir and f.kind != "Closure" and re.search(r"MphdChunk.*::read$", norm(f.path))), None)
+    wr = next((f for f in wdt.fn_list if f.hir and f.kind != "Closure" and re.search(r"MphdChunk.*::write$", norm(f.path))), None)
+    if rd is None or wr is None:
+        ctx.bad(R_slot, "mphd|missing", "-", "MphdChunk::read / write not found", "anchor gone")
+    else:
+        ctx.saw_fn(rd)
+        ctx.saw_fn(wr)
+        rslot = {}
+        for a in hirq.find(rd.hir["body"], "assign"):
+            l = hirq.strip(a["l"])
+            if l.get("k") == "field" and l["name"].endswith("_file_data_id"):
+                src = None
+                for x in hirq.walk(a["r"]):
+                    if x.get("k") == "index" and hirq.lit_int(x["i"]) is not None and hirq.render(x["e"]).endswith(".unused"):
+                        src = 1 + hirq.lit_int(x["i"])
+                    elif x.get("k") == "field" and x["name"] == "something":
+                        src = 0
+                rslot[l["name"]] = src
+        worder = []
+        for n in hirq.find(wr.hir["body"], "if"):
+            seq = []
+            for c in hirq.walk(n["then"]):
+                if c.get("k") == "mcall" and c["m"] == "write_all":
+                    fl = [x["name"] for x in hirq.walk(c["args"][0]) if x.get("k") == "field" and x["name"].endswith("_file_data_id")]
+                    if fl:
+                        seq.append(fl[0])
+            if len(seq) > len(worder):
+                worder = seq
+        if not rslot or not worder:
+            ctx.bad(R_slot, "mphd|shape", rd.where, "slot assignments (%d) or ordered id writes (%d) not recognised" % (len(rslot), len(worder)), "anchor shape changed")
+        else:
+            for i, name in enumerate(worder):
+                if rslot.get(name) == i:
+                    ctx.ok(R_slot, {"field": name, "slot": i})
+                else:
+                    ctx.bad(R_slot, "mphd|slot|%s" % name, rd.where, "write() puts %s in slot %d, read() takes it from slot %s" % (name, i, rslot.get(name)),
+                            "two adjacent 32-bit ids are exchanged on every write→parse of a BfA+ header, and the second write is not byte-identical")
+
+    # WDL tile offsets: the pre-computed offset advances exactly when a chunk is registered for emission
+    R_adv = ctx.rule("C18.wdl-offset-advance-paired-with-chunk", "in WdlParser::write every `current_offset += size` of the per-tile pass sits under the same conditions as the insertion of the chunk it accounts for", floor=2)
+    ww = next((f for f in wdl.fn_list if f.hir and f.kind != "Closure" and norm(f.path) == "wow_wdl::parser::WdlParser::write"), None)
+    if ww is None:
+        ctx.bad(R_adv, "wdl-write|missing", "-", "WdlParser::write not found", "anchor gone")
+    else:
+        ctx.saw_fn(ww)
+        from .c07 import enclosing_if_conditions
+        for lp in hirq.find(ww.hir["body"], "for"):
+            if any(l2 is not lp and any(x is l2 for x in hirq.walk(lp["body"])) for l2 in hirq.find(lp["body"], "for")):
+                continue       # outer loop of a nest: the inner one is visited on its own
+            advs = [x for x in hirq.walk(lp["body"]) if x.get("k") == "assignop" and hirq.render(hirq.strip(x["l"])).endswith("offset")]
+            ins = [x for x in hirq.walk(lp["body"]) if x.get("k") == "mcall" and x["m"] == "insert" and re.search(r"_chunks$", hirq.render(hirq.strip(x["recv"])))]
+            if not advs or not ins:
+                continue
+
+            def sig(n):
+                return tuple((sd, hirq.render(cd)) for sd, cd in enclosing_if_conditions(lp["body"], n))
+            isigs = [sig(x) for x in ins]
+            asigs = [sig(x) for x in advs]
+            for a_, sg in zip(advs, asigs):
+                if sg in isigs:
+                    ctx.ok(R_adv, {"advance": hirq.render(a_)[:70], "line": a_["ln"], "conditions": [c_ for _, c_ in sg]})
+                else:
+                    ctx.bad(R_adv, "wdl-write|advance|%s" % re.sub(r"\W+", "_", hirq.render(a_["r"]))[:40], "%s:%d" % (ww.file, a_["ln"]),
+                            "`%s` runs under %s, but chunks are registered under %s" % (hirq.render(a_)[:60], [c_[:50] for _, c_ in sg] or "no condition", [[c_[:50] for _, c_ in s_] for s_ in isigs]),
+                            "the offset table counts a chunk that is not written (or misses one that is): every later tile offset points into the wrong place and the written file does not parse back")
+            for i_, sg in zip(ins, isigs):
+                if sg not in asigs:
+                    ctx.bad(R_adv, "wdl-write|insert|%s" % hirq.render(hirq.strip(i_["recv"])), "%s:%d" % (ww.file, i_["ln"]), "chunk registered under %s with no offset advance under the same conditions" % [c_[:50] for _, c_ in sg],
+                            "later tile offsets are short by this chunk's size")
+
     for crate in (wdt, wdl):
         by_owner = owners(crate)
         for owner, fs in sorted(by_owner.items()):
@@ -130,8 +202,9 @@ def run(ctx):
     for crate_consts in (wdt.consts(),):
         for k, v in crate_consts.items():
             consts[k] = v.get("v")
-    a = symx.eval_fn(t2w, consts)
-    b = symx.eval_fn(w2t, consts)
+    local_fns = {f.path: f for f in wdt.fn_list if f.hir and f.kind != "Closure"}
+    a = symx.eval_fn(t2w, consts, inline=local_fns)
+    b = symx.eval_fn(w2t, consts, inline=local_fns)
     ra, rb = a.ret, b.ret
     okshape = ra is not None and rb is not None and ra[0] == "op" and ra[1] == "tup" and rb[0] == "op" and rb[1] == "tup" and len(ra) == 4 and len(rb) == 4
     if not okshape:
@@ -158,8 +231,11 @@ def run(ctx):
     cb = sorted(set(str(c) for c in consts_in(rb[2]) + consts_in(rb[3])) - {"63", "0x3F"})
     allc = wdt.consts()
 
-    def named_consts(fn):
+    def named_consts(fn, depth=0):
         out = {}
+        for c_ in hirq.calls(fn.hir["body"]):
+            if c_.get("fn") in local_fns and local_fns[c_["fn"]] is not fn and depth < 3:
+                out.update(named_consts(local_fns[c_["fn"]], depth + 1))
         for x in hirq.walk(fn.hir["body"]):
             if x.get("k") == "path" and x["res"].get("dk", "").startswith("Const"):
                 d = x["res"]["def"]
@@ -171,10 +247,23 @@ def run(ctx):
         return out
     la = sorted(named_consts(t2w).items())
     lb = sorted(named_consts(w2t).items())
-    if la == lb and len(la) >= 2:
-        ctx.ok(R_coord, {"float_constants": la})
+    if set(la) <= set(lb) and len(la) >= 2:
+        # (the inverse may carry extra constants of its own: the index clamp, a snapping tolerance)
+        ctx.ok(R_coord, {"float_constants": la, "inverse_only": sorted(set(lb) - set(la))})
     else:
         ctx.bad(R_coord, "coords|constants", w2t.where, "tile_to_world uses %s, world_to_tile uses %s" % (la, lb), "scale/offset differ between the two directions: the maps are not inverse")
+    # exact grid lines: tile_to_world returns OFFSET - t*SIZE (a point exactly on a tile boundary), so its inverse must not
+    # truncate the raw f32 quotient — it has to snap/round near-integers (or the forward map must return an interior point)
+    R_snap = ctx.rule("C18.inverse-snaps-grid-lines", "world_to_tile rounds quotients that are within tolerance of an integer (or tile_to_world returns an interior point) before converting to an index", floor=2)
+    for i_, (xa, xb) in enumerate(((ra[2], rb[2]), (ra[3], rb[3]))):
+        fa, fb = symx.render(xa), symx.render(xb)
+        interior = bool(re.search(r"0\.5|div\(MAP_SIZE, (0x2|2)", fa))
+        snaps = "call:round(" in fb
+        if interior or snaps:
+            ctx.ok(R_snap, {"axis": i_, "snaps": snaps, "forward_returns_interior_point": interior})
+        else:
+            ctx.bad(R_snap, "coords|truncates-grid-line|axis%d" % i_, w2t.where, "tile index = trunc(%s) while tile_to_world returns the boundary point %s" % (fb[:90], fa[:60]),
+                    "for a boundary point the f32 quotient can come out just below the integer (3.9999998 for tile 4): tile -> world -> tile returns the previous tile (960 of the 4096 tiles on the pinned tree)")
     # the shape: world = OFFSET - tile*SIZE ; tile = (OFFSET - world)/SIZE
     sh_a = all(re.match(r"^sub\(", symx.render(x)) and "mul(" in symx.render(x) for x in (ra[2], ra[3]))
     sh_b = all("div(sub(" in symx.render(x) for x in (rb[2], rb[3]))
